@@ -557,6 +557,17 @@ def restrict(x, facts: "Facts"):
     ats = x.atoms()
     if not ats:
         return x
+    at0 = x.as_atom()
+    if at0 is not None and at0.op == "ite" and (isinstance(at0.args[1], tuple) or isinstance(at0.args[2], tuple)):
+        # a conditional between tuples (pairs of update parts ...): the decided / rewritten result is again a tuple or an ite of tuples
+        c, a, b = at0.args
+        c2 = _restrict_cond(c, facts)
+        v = facts.lookup(c2)
+        if v is True:
+            return restrict(a, facts)
+        if v is False:
+            return restrict(b, facts)
+        return mk_ite(c2, restrict(a, facts.assume(c2, True)), restrict(b, facts.assume(c2, False)), _restricted=True)
     sub = {}
     for at in ats:
         r = _restrict_atom(at, facts)
